@@ -5,6 +5,7 @@
 
 pub mod alloc;
 pub mod core;
+pub mod crash;
 pub mod enumr;
 pub mod model;
 pub mod mutate;
